@@ -16,6 +16,7 @@ EXPLANATION = (
     "C15.N2: in the selection walkers every lookup keyed by a digest taken from the payload or from a disclosed value is total: a panicking `Index` on the disclosure maps must be discharged by a dominating successful lookup of the same key "
     "(paired-insert invariant), and for a `get` on the decoded map the 'absent' edge continues the iteration without reaching an Err. "
     "C15.N3 (A6): with the selector of the current member/element assumed null or false, no Err exit depends on a failed lookup — a deselected node is tolerated even if it was already withheld. "
+    "C15.N5: in the JSON form the envelope's disclosure list is replaced by the selected list on every path (shared with C10.F3). "
     "Equality of the narrowed presentation with the direct one is a relation between two runs and is not decided."
     " C15.N3 counts `?`-propagated errors like constructed ones. C15.N4: the list walkers pair selection and claims in lock step over the full element sequences (rule shared with C06.H2 / C01.f)."
 )
@@ -85,6 +86,10 @@ def run(ctx):
     # sequences (rule shared with C06.H2 / C01.f): a presentation that withholds an earlier element must not shift later selectors
     import c06
     c06.role_preserving(common.RelabelCtx(ctx, "C15.N4", keep=("positional-zip", "recursion-roles")), fx, H, "C15.N4")
+    # N5: a narrowed presentation carries exactly the disclosures selected now: in the JSON form the envelope's list is replaced, on every
+    # path, by the selected list (what the holder was constructed with must not shine through) — rule shared with C10.F3
+    import c10
+    c10.f3(common.RelabelCtx(ctx, "C15.N5", keep=("json-disclosures",)), fx)
 
 
 def n3(ctx, fx, H):
